@@ -576,7 +576,7 @@ def reentrant_scenarios():
 
 def check_C13():
     ctx = Ctx("C13"); cov = {}
-    broken = proof_part(ctx, "props/C13.v", ["proofs/X_basic.v", "proofs/X_inv.v", "proofs/X_c13.v", "proofs/X_inst.v", "proofs/X_c16.v", "proofs/X_term.v", "XMachine.v", "props/C03.v", "proofs/XS_inv.v", "proofs/XS_lock.v", "proofs/XS_inst.v", "XMachineS.v"], cov)
+    broken = proof_part(ctx, "props/C13.v", ["proofs/X_basic.v", "proofs/X_inv.v", "proofs/X_c13.v", "proofs/X_inst.v", "proofs/X_c16.v", "proofs/X_term.v", "proofs/XS_term.v", "XMachine.v", "props/C03.v", "proofs/XS_inv.v", "proofs/XS_lock.v", "proofs/XS_inst.v", "XMachineS.v"], cov)
     n = N(ctx, 1200, 20000)
     from . import solo
     fam = solo.resize_families(ctx.tier, [("Map", None), ("MapOf_int", "default"), ("MapOf_int", "const"), ("MapOf_str", "default")])
@@ -653,7 +653,7 @@ def check_C04():
 
 def check_C03():
     ctx = Ctx("C03"); cov = {}
-    broken = proof_part(ctx, "props/C03.v", ["proofs/C11_table.v", "proofs/C11_lists.v", "proofs/X_maps.v", "proofs/XS_inv.v", "TableModel.v", "XMachineS.v", "proofs/XS_lock.v", "proofs/XS_own.v", "proofs/XS_count.v", "proofs/XS_inst.v", "proofs/XS_cells.v", "proofs/XS_vis.v", "proofs/XS_abs.v", "proofs/XS_cinst.v", "proofs/XS_resize.v", "proofs/XS_rinst.v", "proofs/XS_read.v", "proofs/XS_rdinst.v", "proofs/XS_loadhit.v", "proofs/XS_lhinst.v", "proofs/XS_loadmiss.v", "proofs/XS_lminst.v", "proofs/XS_fn.v", "proofs/XS_size.v", "proofs/XS_range.v", "proofs/LinGen.v", "proofs/XS_stale.v", "proofs/XS_linpoints.v", "proofs/XS_linearizable.v", "proofs/XS_linpoints2.v", "proofs/XS_linearizable2.v", "proofs/X_linpoints.v", "Lin.v"], cov)
+    broken = proof_part(ctx, "props/C03.v", ["proofs/C11_table.v", "proofs/C11_lists.v", "proofs/X_maps.v", "proofs/XS_inv.v", "TableModel.v", "XMachineS.v", "proofs/XS_lock.v", "proofs/XS_own.v", "proofs/XS_count.v", "proofs/XS_inst.v", "proofs/XS_cells.v", "proofs/XS_vis.v", "proofs/XS_abs.v", "proofs/XS_cinst.v", "proofs/XS_resize.v", "proofs/XS_rinst.v", "proofs/XS_read.v", "proofs/XS_rdinst.v", "proofs/XS_loadhit.v", "proofs/XS_lhinst.v", "proofs/XS_loadmiss.v", "proofs/XS_lminst.v", "proofs/XS_fn.v", "proofs/XS_size.v", "proofs/XS_range.v", "proofs/LinGen.v", "proofs/XS_stale.v", "proofs/XS_linpoints.v", "proofs/XS_linearizable.v", "proofs/XS_linpoints2.v", "proofs/XS_linearizable2.v", "proofs/XS_term.v", "proofs/X_linpoints.v", "Lin.v"], cov)
     n = N(ctx, 2000, 30000)
     from . import solo
     fam = solo.resize_families(ctx.tier, [("Map", None)])
